@@ -30,7 +30,7 @@ def cover_models():
                           'the declarative Covered relation; and every pair of operations in one bundle (class x 2 '
                           'scopes x key, twice, acceptance on/off): delivered iff every operation verifies')]
     for dev in ('aad_without_primary', 'aad_without_target_meta', 'aad_without_protected', 'last_result_wins',
-                'skips_after_accepted', 'trusts_attached_payload'):
+                'skips_after_accepted', 'trusts_attached_payload', 'decode_masks_unnamed_flags'):
         runs.append(ModelRun('BpSecCover', COVER_CFG % ('{"%s"}' % dev), 'cover-dev-' + dev, expect='violation',
                              workers=8, note='an AAD that omits this part must be caught'))
     return runs
